@@ -166,7 +166,7 @@ func runC03(t *testing.T, e *worlds.Env, tier string) (bool, any) {
 		var sets []layer4.MatcherSet
 		need := 0
 		if tp.Prob(1, 2, "matcher") {
-			need = tp.Pick("need", 1, 4, 300, 2049, 5000)
+			need = tp.Pick("need", 1, 4, 300, 2049, 5000, 8000)
 			if need > appLen {
 				need = appLen
 			}
